@@ -64,6 +64,37 @@ def script_case(ck, beh, i):
     return dict(stack=stack, program=prog, tags=dict(flavour="script", modes=["script"]))
 
 
+def minimal_cases():
+    """The smallest stacks and programs that exhibit each suspected defect (deterministic, both tiers), plus a
+    sweep of the moment at which a TLB with a miss outstanding is paused for an invalidation."""
+    tlb = dict(sets=1, ways=2, mshr=2, latency=2, width=1, buf=2)
+    walker = dict(latency=3, max_in_flight=2, buf=2)
+    t0 = [dict(name="T0", at="L1", window=4, buf=2)]
+    one = [dict(pid=1, vpn=1, off=0)]
+
+    def case(name, stack, prog):
+        return dict(stack=dict(dict(name=name, log2_page=12, num_ppages=8), **stack),
+                    program=[dict(op="map", pid=1, vpn=1, ppn=1, dev=1)] + prog, tags=dict(flavour="minimal:" + name))
+    cases = [
+        case("Lat1", dict(tlbs=[dict(tlb, latency=1)], mmu=walker, agents=t0),
+             [dict(op="traffic", agent="T0", accesses=one), dict(op="quiesce")]),
+        case("MMUCache", dict(tlbs=[tlb], mmu_cache=dict(levels=2, blocks=2, width=1, buf=2, latency_per_level=1), mmu=walker, agents=t0),
+             [dict(op="traffic", agent="T0", accesses=one), dict(op="quiesce")]),
+        case("GMMURemote", dict(tlbs=[], gmmu=dict(walker, device_id=1), mmu=walker, agents=[dict(name="T0", at="GM", window=4, buf=2)]),
+             [dict(op="map", pid=1, vpn=2, ppn=2, dev=2), dict(op="traffic", agent="T0", accesses=[dict(pid=1, vpn=2, off=0)]),
+              dict(op="quiesce")]),
+        case("Unaligned", dict(tlbs=[tlb], mmu=walker, agents=t0),
+             [dict(op="traffic", agent="T0", accesses=[dict(pid=1, vpn=1, off=8)]), dict(op="quiesce")]),
+    ]
+    for n in range(0, 14):
+        cases.append(case("PauseWindow%d" % n, dict(tlbs=[tlb], mmu=walker, agents=t0), [
+            dict(op="traffic", agent="T0", accesses=one), dict(op="runfor", cycles=n),
+            dict(op="ctrl", level="L1", cmd="pause"), dict(op="map", pid=1, vpn=1, ppn=2, dev=1),
+            dict(op="ctrl", level="L1", cmd="inv", pid=1, vpns=[1]), dict(op="ctrl", level="L1", cmd="enable"),
+            dict(op="run"), dict(op="traffic", agent="T0", accesses=one), dict(op="quiesce")]))
+    return cases
+
+
 def models(ck, thorough):
     """Translation.tla: exhaustive run + control configurations, concurrently. Returns a list of problems."""
     jobs = [("Translation_t.cfg" if thorough else "Translation_q.cfg", None),
@@ -73,7 +104,7 @@ def models(ck, thorough):
 
     def one(job):
         cfg, expect = job
-        return job, core.tlc(["vm"], "Translation", cfg, workers=6 if cfg.endswith(("_t.cfg", "_q.cfg")) else 3, timeout=2400)
+        return job, core.tlc(["vm"], "Translation", cfg, workers=6 if cfg.endswith(("_t.cfg", "_q.cfg")) else 3, timeout=7200)
     with concurrent.futures.ThreadPoolExecutor(max_workers=len(jobs)) as ex:
         res = list(ex.map(one, jobs))
     return res
@@ -95,7 +126,7 @@ def account_models(ck, res):
 
 def scripts(ck, n, depth):
     """Behaviours of Translation.tla drawn by TLC's simulator (the invariants are checked on them too)."""
-    return core.tlc(["vm"], "Translation", "Translation_sim.cfg", workers=2, timeout=900, simulate=n, depth=depth,
+    return core.tlc(["vm"], "Translation", "Translation_sim.cfg", workers=1, timeout=900, simulate=n, depth=depth,
                     seed=ck.seed * 7919 + 25)
 
 
@@ -168,7 +199,8 @@ def run(ck):
                       "validated by TLC against TransTrace.tla; a level owing answers because a lower level owes answers is a "
                       "consequence and only the lowest failing level is reported. (3) behaviours simulated from Translation.tla "
                       "replayed on a small stack. (4) probes of suspected defects (TLB latency 1, MMU cache, GMMU remote pages, "
-                      "addresses that are not page-aligned sent to a TLB). Non-trivial = a case without rule failure in which "
+                      "addresses that are not page-aligned sent to a TLB; a sweep of the instant at which a TLB with a miss "
+                      "outstanding is paused for an invalidation), random and as minimal deterministic cases. Non-trivial = a case without rule failure in which "
                       "at least one answer had to use a mapping installed by a page-table change.")
     ck.assumptions += ["address translator, TLBs, MMU cache, MMU and page table configured with the same page size",
                        "requests only for mapped pages (the MMU panics on an unmapped page without auto-allocation)",
@@ -190,7 +222,7 @@ def run(ck):
             dict(n=probes, flavour="mc", modes=["idle", "drain"], bounds=small),
             dict(n=probes, flavour="gmmu-remote", modes=["idle"], bounds=small),
             dict(n=probes, flavour="unaligned", modes=["idle"], bounds=small)])
-        reports, records, infos, out = transcheck.run_cases(ck, payload, "random stacks", chunks=12 if thorough else 3)
+        reports, records, infos, out = transcheck.run_cases(ck, payload, "random stacks", chunks=16 if thorough else 3)
         judge(ck, "random stacks", reports, records, infos, payload)
         if out.get("sample"):
             ck.sample({"trace_excerpt": out["sample"][:16]})
@@ -199,9 +231,12 @@ def run(ck):
                        "requests": rep["result"]["requests"], "counters": infos.get(rep["index"])})
         behs = account_scripts(ck, fs.result(), nscripts)
         cases = [script_case(ck, b, i) for i, b in enumerate(behs)]
+        nb = len(cases)
+        cases += minimal_cases()
         payload = dict(seed=ck.seed, cases=cases)
-        reports, records, infos, out = transcheck.run_cases(ck, payload, "model behaviours", chunks=6 if thorough else 2)
-        judge(ck, "model behaviours", reports, records, infos, payload)
+        reports, records, infos, out = transcheck.run_cases(ck, payload, "model behaviours + minimal cases", chunks=6 if thorough else 2)
+        judge(ck, "model behaviours", reports[:nb], records, infos, payload)
+        judge(ck, "minimal cases", reports[nb:], records, infos, payload)
         ck.sample({"model_behaviour": behs[0]})
         account_models(ck, fm.result())
     ck.cov["exhaustive"] = False
